@@ -262,3 +262,11 @@ def varfree_in_scope(s):
         return True
     except OverflowError:
         return False
+
+
+def build_with_parts(s, mode):
+    """(root object, list of the composite sub-expression objects a caller would also hold references to)."""
+    b = S.Builder(mode)
+    root = b.build(s)
+    parts = [o for o in b.nodes if o is not root and type(o).__name__ not in ("Variable", "Constant")]
+    return root, parts
